@@ -60,6 +60,7 @@ MachineConfig machine_config_for(const Case &c, const DomainInfo &di) {
   mc.magnitude_bits = (di.caps & CAP_INT64) ? 40 : 120;
   mc.remake_outside = c.pbool("remake_outside");
   mc.bv = (di.caps & CAP_BV) != 0;
+  mc.bv_strict = c.pbool("bv_strict");
   return mc;
 }
 
